@@ -46,6 +46,43 @@ Definition num_halves (v : pyval) : option Z :=
   | _ => None
   end.
 
+(* object identity, approximated structurally: `a is b` for two references to one object *)
+Fixpoint val_same (a b : pyval) {struct a} : bool :=
+  match a, b with
+  | VNone, VNone => true
+  | VBool x, VBool y => Bool.eqb x y
+  | VInt x, VInt y => Z.eqb x y
+  | VFloat x, VFloat y => Z.eqb x y
+  | VStr s, VStr t => String.eqb s t
+  | VBytes s, VBytes t => String.eqb s t
+  | VCont c l, VCont d m =>
+      Nat.eqb c d &&
+      (fix go (l m : list pyval) : bool :=
+         match l, m with
+         | [], [] => true
+         | x :: l', y :: m' => val_same x y && go l' m'
+         | _, _ => false
+         end) l m
+  | VMap c l, VMap d m =>
+      Nat.eqb c d &&
+      (fix go (l m : list (pyval * pyval)) : bool :=
+         match l, m with
+         | [], [] => true
+         | (k, x) :: l', (k', y) :: m' => val_same k k' && val_same x y && go l' m'
+         | _, _ => false
+         end) l m
+  | VCls c, VCls d => Nat.eqb c d
+  | VObj c l, VObj d m =>
+      Nat.eqb c d &&
+      (fix go (l m : list (string * pyval)) : bool :=
+         match l, m with
+         | [], [] => true
+         | (k, x) :: l', (k', y) :: m' => String.eqb k k' && val_same x y && go l' m'
+         | _, _ => false
+         end) l m
+  | _, _ => false
+  end.
+
 (* Python == between an arbitrary object and a *scalar* (what Literal[...] members and
    dictionary keys are); containers and instances compare unequal to scalars (user-defined
    __eq__ is not modelled). *)
@@ -59,9 +96,9 @@ Definition scalar_eq (a b : pyval) : bool :=
       | VStr s, VStr t => String.eqb s t
       | VBytes s, VBytes t => String.eqb s t
       | VCls c, VCls d => Nat.eqb c d
-      | VObj c [], VObj d [] => Nat.eqb c d   (* attribute-less instances used as dictionary keys:
-                                                 identity approximated by class (the generators never
-                                                 put two such keys of one class into one mapping) *)
+      | VObj _ _, VObj _ _ => val_same a b    (* instances compare by identity, approximated
+                                                 structurally (the generators never put two
+                                                 structurally equal instances into one mapping) *)
       | _, _ => false
       end
   end.
